@@ -25,6 +25,8 @@ class LifecycleAdmin(actors.Party):
             return {"op": "delete_bucket", "b": b}
         if x < 0.8:
             return {"op": "lookup", "b": b}
+        if x < 0.85:
+            return {"op": "other_store", "b": b, "ev": gen.event(r, self.cfg["lat"])}
         s = {"op": "describe", "b": b}
         if r.random() < 0.4:
             s["stale"] = True
@@ -43,7 +45,7 @@ class C05(Check):
         "Datastore.buckets(), Bucket.metadata() and the event listing are compared with a dict model; non-trivial = a "
         "bucket holding events was deleted or a missing-bucket operation was issued; distinct = (backend, op-kind sequence)"
     )
-    expected_probes = ["delete_with_events", "recreate_after_delete", "update_live", "missing_lookup", "missing_describe", "missing_update", "missing_delete", "stale_handle_describe", "restart_clean", "new_datastore", "name_omitted", "data_given", "event_observation_deferred"]
+    expected_probes = ["delete_with_events", "recreate_after_delete", "update_live", "missing_lookup", "missing_describe", "missing_update", "missing_delete", "stale_handle_describe", "restart_clean", "new_datastore", "name_omitted", "data_given", "event_observation_deferred", "other_store_in_same_process"]
     assumptions = ["duplicate creation of a live id is not generated (the property is silent about it)", "update fields are non-empty strings / non-empty dicts (the property's quantifier)"]
 
     def gen(self, seed, idx, tier):
@@ -80,6 +82,9 @@ class C05(Check):
         if "name" in m:
             e["name"] = m["name"]
         return e
+
+    def fresh_store_not_empty(self, world):
+        raise Violation("listing", "a freshly created store already lists buckets %s that were never created in it" % sorted(world.view), {"op": "start"})
 
     def _cmp_listing(self, world, op):
         listing = world.ds.buckets()
@@ -193,6 +198,9 @@ class C05(Check):
                     raise Violation("missing_raises", "describe of missing bucket %r: %s (ValueError expected)" % (b, "raised %r" % (exc,) if exc else "returned %s" % short(out["ret"])), {"op": op})
         elif op == "new_datastore":
             pr["new_datastore"] += 1
+        elif op == "other_store":
+            if out["ret"]:
+                raise Violation("listing", "a newly created store object already lists buckets %s (state shared with another store)" % sorted(out["ret"]), {"op": op})
         # the whole map, after every step (missing-bucket operations change nothing)
         try:
             self._cmp_listing(world, op)
